@@ -179,23 +179,29 @@ def _case(repo, it, S, spec):
     B = it.enum("Biotype")
     nm = {0: "ZERO", 1: "ONE", 2: "TWO"}
     par = chrom_parent(it, GENOME, alphabet="NT_EXTENDED")
-    genes = []
     chosen = [g for g in GENES if g[0] in gene_ids]
-    for gid, strand, txs, biotype in chosen:
-        tobjs = []
-        for i, (exons, cds, f0) in enumerate(txs):
-            kw = dict(transcript_id=f"{gid}.{i}", sequence_name="chr1", parent_or_seq_chunk_parent=par, transcript_type=B[biotype])
-            if quals:
-                kw["qualifiers"] = {k: list(v) for k, v in quals.items()}
-                kw["qualifiers"]["product"] = ["tRNA-Ser", "tRNA-Ala"] if biotype == "tRNA" else ["prod_b", "prod_a", "prod c"]
-            if cds:
-                fr = consistent_frames(cds, strand, f0)
-                tobjs.append(mk_transcript(it, exons, S[strand], cds, [F[nm[x]] for x in fr], **kw))
-            else:
-                tobjs.append(mk_transcript(it, exons, S[strand], **kw))
-        genes.append(mk_gene(it, tobjs, gene_id=gid, gene_symbol=None if nosym else gid + "sym", gene_type=B[biotype], sequence_name="chr1", parent_or_seq_chunk_parent=par,
-                             **({"qualifiers": {k: list(v) for k, v in quals.items()}} if quals else {})))
-    ac = mk_collection(it, genes, None, sequence_name="chr1", parent_or_seq_chunk_parent=par)
+
+    def build_collection(shift_downstream=0):
+        genes = []
+        for gid, strand, txs, biotype in chosen:
+            tobjs = []
+            for i, (exons, cds, f0) in enumerate(txs):
+                kw = dict(transcript_id=f"{gid}.{i}", sequence_name="chr1", parent_or_seq_chunk_parent=par, transcript_type=B[biotype])
+                if quals:
+                    kw["qualifiers"] = {k: list(v) for k, v in quals.items()}
+                    kw["qualifiers"]["product"] = ["tRNA-Ser", "tRNA-Ala"] if biotype == "tRNA" else ["prod_b", "prod_a", "prod c"]
+                if cds:
+                    fr = consistent_frames(cds, strand, f0)
+                    if shift_downstream:
+                        five = 0 if strand == "PLUS" else len(fr) - 1
+                        fr = [x if j == five else (x + shift_downstream) % 3 for j, x in enumerate(fr)]
+                    tobjs.append(mk_transcript(it, exons, S[strand], cds, [F[nm[x]] for x in fr], **kw))
+                else:
+                    tobjs.append(mk_transcript(it, exons, S[strand], **kw))
+            genes.append(mk_gene(it, tobjs, gene_id=gid, gene_symbol=None if nosym else gid + "sym", gene_type=B[biotype], sequence_name="chr1", parent_or_seq_chunk_parent=par,
+                                 **({"qualifiers": {k: list(v) for k, v in quals.items()}} if quals else {})))
+        return mk_collection(it, genes, None, sequence_name="chr1", parent_or_seq_chunk_parent=par)
+    ac = build_collection()
     desc = f"genes {list(gene_ids)} flavor={flavor} table={table} seed={seed}" + (" (multi-valued db_xref / gene_synonym qualifiers)" if quals else "") + (" (genes without a symbol)" if nosym else "")
     texts = []
     for rep in range(2):
@@ -243,6 +249,24 @@ def _case(repo, it, S, spec):
         diff = [(a_, b_) for a_, b_ in zip(texts[0], handle) if a_ != b_][:2]
         out.append(("reproducible for a fixed seed [iteration order of sets]", f"{desc}: the same export with every set iterated in the opposite order "
                     f"(another hash seed) gives another file for the same random_seed: {diff}", f.qual))
+    # a feature table states one reading frame per CDS (codon_start): source models that differ only in the frames annotated on
+    # the blocks 3' of the first one describe the same file - same partial marks, same pseudo flags
+    if seed is not None and not quals and any(cds and len(cds) > 1 for _g, _s, txs_, _b in chosen for _e, cds, _f in txs_):
+        for sh in (1, 2):
+            try:
+                ac_sh = build_collection(sh)
+            except Raised:
+                continue
+            it.overrides["random"] = SeededRandom()
+            handle = []
+            k, v = run(it, f, [[ac_sh], handle], dict(translation_table=it.enum("TranslationTable")[table], locus_tag_prefix="LT",
+                                                      genbank_flavor=it.enum("GenbankFlavor")[flavor], locus_tag_jump_size=5,
+                                                      submitter_lab_name="lab", random_seed=seed), None)
+            if k != "ok" or list(handle) != texts[0]:
+                diff = [(a_, b_) for a_, b_ in zip(texts[0], handle) if a_ != b_][:2] if k == "ok" else v
+                out.append(("frames annotated 3' of the first block do not change the file", f"{desc}: the same genes with the frames of the downstream CDS "
+                            f"blocks shifted by {sh} (start frame unchanged) export differently: {diff if diff else (len(texts[0]), len(handle))}", f.qual))
+                break
     lines = texts[0]
     if not lines or lines[0] != ">Features chr1":
         out.append(("header", f"{desc}: first line {lines[:1]}; expected '>Features chr1'", f.qual))
